@@ -167,11 +167,14 @@ func (c *clientApp) init() (err error) {
 
 	// Configure the file store to be scanned
 	store := &store.Local{
-		Root:           filepath.Clean(c.conf.OutDir),
-		MinAge:         c.conf.MinAge,
-		IncludeHidden:  c.conf.IncludeHidden,
-		Include:        c.conf.Include,
-		Ignore:         c.conf.Ignore,
+		Root:          filepath.Clean(c.conf.OutDir),
+		MinAge:        c.conf.MinAge,
+		IncludeHidden: c.conf.IncludeHidden,
+		Include:       c.conf.Include,
+		// (a copy: patterns are appended to this list below, and a source
+		// that inherited its ignore list shares the list's storage with the
+		// source it inherited it from)
+		Ignore:         append([]*regexp.Regexp(nil), c.conf.Ignore...),
 		FollowSymlinks: c.dirOutFollow,
 	}
 	store.AddStandardIgnore()
